@@ -30,6 +30,7 @@ RULE = (
     "write index of a cold run x {lost write, crash before, crash after} followed by restarts on the surviving store, then key-file truncation / "
     "deletion / replacement across a restart. Non-trivial = a hit was served or an injected cache fault fired on a stored entry; distinct = digest "
     "of (program shape, cache flags, backend, history / fault point)."
+    ' Further: cacheable nodes with emit outputs on DiskCache, two gates sharing one function with equal targets but different emit names, two graphs that differ in one node (extra emit / sibling closure made by the same file-defined factory) sharing one cache, a long-lived DiskCache object serving warm run, hit and damaged lookups.'
 )
 ASSUMPTIONS = [
     "values are immutable (InMemoryCache shares objects by reference)",
